@@ -272,6 +272,12 @@ func VerifyAddressKey(ip netip.Addr, digestAlg crop.Hash, keyType crop.KeyPairTy
 		return errors.New("key type not specified")
 	case len(pubKeyData) == 0:
 		return errors.New("key not specified")
+	case !digestAlg.IsValid():
+		return errors.New("invalid hash algorithm")
+	case len(keyType) > 0xFF:
+		return errors.New("key type too long")
+	case len(pubKeyData) > 0xFFFF:
+		return errors.New("key too long")
 	}
 
 	// Make comparison.
@@ -491,6 +497,14 @@ func (addr *PublicAddress) VerifyAddress() error {
 	// Check if the address is in the base prefix.
 	if !BaseNetPrefix.Contains(addr.IP) {
 		return errors.New("invalid ip address")
+	}
+
+	// Only Ed25519 keys are currently supported.
+	if addr.Type != AddressKeyToolID {
+		return fmt.Errorf("unsupported key type %q", SafeString(string(addr.Type)))
+	}
+	if len(addr.PublicKey) != ed25519.PublicKeySize {
+		return fmt.Errorf("invalid public key size: %d (should be %d)", len(addr.PublicKey), ed25519.PublicKeySize)
 	}
 
 	return VerifyAddressKey(addr.IP, addr.Hash, addr.Type, addr.PublicKey, addr.Easing)
